@@ -122,6 +122,7 @@ type VC struct {
 	idxUses    map[string][]string // during pass 1 of a quantifier: bound variable -> slice terms it indexes
 	qvarNames  map[string]string // SMT binder name -> source name
 	plainUses  map[string]bool
+	curBinders []string
 	versions   map[string]string
 	paramAlias map[string]ssa.Value // contract parameter names of an interface-level contract -> this method's parameters
 	tag        string               // suffix for obligation names when a function is verified against several contracts
@@ -454,6 +455,42 @@ func (vc *VC) allocRef(st *State) string {
 
 // ---------------------------------------------------------------------------
 // Address functions for struct-typed fields of heap structs (interior pointers).
+
+// interiorRef: the reference of the struct-typed field idx nested by value in the struct ref points to. Objects
+// are identified by allocation; a nested struct shares its owner's reference (heap maps are keyed per innermost
+// struct type and field, so there is no clash) unless the owner nests the same struct type twice.
+func (vc *VC) interiorRef(structT types.Type, idx int, ref string) string {
+	if !nestsTypeTwice(structT) {
+		return ref
+	}
+	return "(" + vc.fieldAddrFn(structT, idx) + " " + ref + ")"
+}
+
+func nestsTypeTwice(t types.Type) bool {
+	seen := map[string]int{}
+	var walk func(t types.Type)
+	walk = func(t types.Type) {
+		st, ok := t.Underlying().(*types.Struct)
+		if !ok {
+			return
+		}
+		for i := 0; i < st.NumFields(); i++ {
+			ft := st.Field(i).Type()
+			if _, nested := ft.Underlying().(*types.Struct); nested {
+				seen[types.TypeString(ft, nil)]++
+				walk(ft)
+			}
+		}
+	}
+	seen[types.TypeString(t, nil)]++
+	walk(t)
+	for _, n := range seen {
+		if n > 1 {
+			return true
+		}
+	}
+	return false
+}
 
 func (vc *VC) fieldAddrFn(structT types.Type, idx int) string {
 	st := structT.Underlying().(*types.Struct)
